@@ -233,6 +233,11 @@ class SpanUpdater:
 
     def update(self, offset, bisect):
         """Shift an offset left or right."""
-        index = bisect(self.offsets, offset) - 1
+        if not self.offsets:
+            # text_before is empty, so there is nothing to shift
+            return offset
+        # an offset at the very start belongs to the first range; don't let
+        # an index of -1 wrap around to the last one
+        index = max(bisect(self.offsets, offset) - 1, 0)
         updater = self.updaters[index]
         return updater(offset)
